@@ -210,7 +210,8 @@ class Report:
         with open(os.path.join(EVIDENCE_DIR, f"{self.prop_id}.json"), "w", encoding="utf-8") as f:
             json.dump(evidence, f, indent=1, default=str)
         for ln in lines:
-            print(ln)
+            # (a 400-digit exponent in a witness should not flood the terminal; the replay file has it all)
+            print(ln if len(ln) <= 1200 or ln.startswith("VIOLATION") else ln[:1200] + " ...")
         summary = (f"{self.prop_id} [{self.tier}] obligations={n_obl} discharged={discharged} "
                    f"cases={coverage['evaluations']} known={len(self.known_hits)} "
                    f"violations={len(self.violations)} inconclusive={len(self.inconclusive)} "
